@@ -407,7 +407,7 @@ def compare_sides(kind, d, left, right, total, cons_normal, k, model_form, do_fi
         fr.do_fit()
         pl, pr = np.array(fl.parameter_values), np.array(fr.parameter_values)
         el, er = np.asarray(fl.parameter_errors), np.asarray(fr.parameter_errors)
-        if np.any(np.abs(pl - pr) > 1e-3 * er + 1e-9):
+        if np.any(np.abs(pl - pr) > 1e-2 * er + 1e-9):      # 0.01 sigma: two minimisations of the same function (one side was fitted by its wrapper before)
             viol("SameProblem: fit results differ between the two forms", dict(left=pl.tolist(), right=pr.tolist(), sigma=er.tolist()))
         elif not at_limit(fl) and not at_limit(fr) and not np.allclose(el, er, rtol=5e-2):      # uncertainties at an active limit are not defined
             viol("SameProblem: parameter uncertainties differ between the two forms", dict(left=el.tolist(), right=er.tolist()))
